@@ -244,91 +244,115 @@ func cmdCheck(args []string) int {
 		return 2
 	}
 
-	// ---- run them ----
+	// ---- run them: worker processes, each loads its group's program once ----
 	self, _ := os.Executable()
-	sem := make(chan struct{}, *jobs)
-	var wg sync.WaitGroup
+	gkey := func(o *Obligation) string {
+		sb, _ := json.Marshal(o.Seams)
+		return o.Pkg + "|" + strings.Join(o.Files, ",") + "|" + string(sb)
+	}
+	byGroup := map[string][]int{}
+	var gorder []string
 	for i, r := range runs {
-		wg.Add(1)
-		go func(i int, r *runJob) {
-			defer wg.Done()
-			sem <- struct{}{}
-			defer func() { <-sem }()
+		k := gkey(r.obl)
+		if _, ok := byGroup[k]; !ok {
+			gorder = append(gorder, k)
+		}
+		byGroup[k] = append(byGroup[k], i)
+	}
+	type worker struct {
+		mf manyFile
+		bd time.Duration
+	}
+	var workers []*worker
+	for _, k := range gorder {
+		idxs := byGroup[k]
+		nw := (*jobs*len(idxs) + len(runs) - 1) / len(runs)
+		if nw < 1 {
+			nw = 1
+		}
+		if nw > len(idxs) {
+			nw = len(idxs)
+		}
+		// heavier runs (later split values) first, dealt round-robin
+		ws := make([]*worker, nw)
+		o0 := runs[idxs[0]].obl
+		for w := range ws {
+			ws[w] = &worker{mf: manyFile{Pkg: o0.Pkg, Files: o0.Files, Seams: o0.Seams, OutDir: tmp}}
+		}
+		for n := len(idxs) - 1; n >= 0; n-- {
+			i := idxs[n]
+			r := runs[i]
 			o := r.obl
-			out := filepath.Join(tmp, fmt.Sprintf("run%d.json", i))
 			budget := r.tier.Budget
 			if budget == "" {
 				budget = "10m"
 			}
 			bd, _ := time.ParseDuration(budget)
-			solver := o.Solver
-			if solver == "" {
-				solver = "z3"
-			}
-			a := []string{"run", "-pkg", o.Pkg, "-harness", o.Harness, "-files", strings.Join(o.Files, ","),
-				"-solver", solver, "-budget", budget, "-params", paramStr(r.params), "-o", out,
-				"-verif", *verifDir, "-repo", *repo}
-			if len(o.Seams) > 0 {
-				sb, _ := json.Marshal(o.Seams)
-				a = append(a, "-seams", string(sb))
-			}
-			if len(o.Covers) > 0 && !r.wit {
-				a = append(a, "-covers", strings.Join(o.Covers, ","))
-			}
-			if r.tier.Timeout > 0 {
-				a = append(a, "-timeout", strconv.Itoa(r.tier.Timeout))
-			}
-			if r.tier.MaxPaths > 0 {
-				a = append(a, "-max-paths", strconv.Itoa(r.tier.MaxPaths))
-			}
-			if r.tier.MaxSteps > 0 {
-				a = append(a, "-max-steps", strconv.FormatInt(r.tier.MaxSteps, 10))
-			}
 			pre := o.Preempt
 			if r.tier.Preempt != nil {
 				pre = *r.tier.Preempt
 			}
-			if pre > 0 {
-				a = append(a, "-preempt", strconv.Itoa(pre))
+			j := manyJob{Index: i, Harness: o.Harness, Params: r.params, Solver: o.Solver, Timeout: r.tier.Timeout,
+				MaxPaths: r.tier.MaxPaths, MaxSteps: r.tier.MaxSteps, Budget: budget, Preempt: pre, Witness: r.wit}
+			if !r.wit {
+				j.Covers = o.Covers
 			}
-			if r.wit {
-				a = append(a, "-witness")
-			}
-			cmd := osexec.Command(self, a...)
+			w := ws[(len(idxs)-1-n)%nw]
+			w.mf.Jobs = append(w.mf.Jobs, j)
+			w.bd += bd + 30*time.Second
+		}
+		workers = append(workers, ws...)
+	}
+	sem := make(chan struct{}, *jobs)
+	var wg sync.WaitGroup
+	for wi, w := range workers {
+		wg.Add(1)
+		go func(wi int, w *worker) {
+			defer wg.Done()
+			sem <- struct{}{}
+			defer func() { <-sem }()
+			jf := filepath.Join(tmp, fmt.Sprintf("worker%d.json", wi))
+			jb, _ := json.Marshal(w.mf)
+			os.WriteFile(jf, jb, 0o644)
+			cmd := osexec.Command(self, "runmany", "-jobs", jf, "-verif", *verifDir, "-repo", *repo)
 			var stderr bytes.Buffer
 			cmd.Stderr = &stderr
 			cmd.Stdout = &stderr
 			done := make(chan error, 1)
+			werr := ""
 			if err := cmd.Start(); err != nil {
-				r.err = err.Error()
-				return
-			}
-			go func() { done <- cmd.Wait() }()
-			select {
-			case <-done:
-			case <-time.After(bd + 3*time.Minute):
-				cmd.Process.Kill()
-				<-done
-				r.err = "killed: exceeded wall budget " + budget + " by 3m"
-			}
-			b, err := os.ReadFile(out)
-			if err != nil {
-				if r.err == "" {
-					r.err = "no result: " + firstLines(stderr.String(), 6)
+				werr = err.Error()
+			} else {
+				go func() { done <- cmd.Wait() }()
+				select {
+				case <-done:
+				case <-time.After(w.bd + 3*time.Minute):
+					cmd.Process.Kill()
+					<-done
+					werr = "killed: worker exceeded its wall budget"
 				}
-				return
 			}
-			var res OblResult
-			if err := json.Unmarshal(b, &res); err != nil {
-				r.err = "bad result json: " + err.Error()
-				return
+			for _, j := range w.mf.Jobs {
+				r := runs[j.Index]
+				b, err := os.ReadFile(filepath.Join(tmp, fmt.Sprintf("run%d.json", j.Index)))
+				if err != nil {
+					r.err = werr
+					if r.err == "" {
+						r.err = "no result: " + firstLines(stderr.String(), 6)
+					}
+					continue
+				}
+				var res OblResult
+				if err := json.Unmarshal(b, &res); err != nil {
+					r.err = "bad result json: " + err.Error()
+					continue
+				}
+				r.res = &res
+				if *verbose {
+					fmt.Fprintf(os.Stderr, "  %-50s %-12s paths=%d queries=%d solver=%.1fs wall=%.1fs\n", r.label, res.Verdict, res.Paths, res.SolverStats.Queries, res.SolverStats.Seconds, res.WallS)
+				}
 			}
-			r.res = &res
-			r.out = stderr.String()
-			if *verbose {
-				fmt.Fprintf(os.Stderr, "  %-50s %-12s paths=%d queries=%d solver=%.1fs wall=%.1fs\n", r.label, res.Verdict, res.Paths, res.SolverStats.Queries, res.SolverStats.Seconds, res.WallS)
-			}
-		}(i, r)
+		}(wi, w)
 	}
 	wg.Wait()
 
@@ -340,10 +364,6 @@ func cmdCheck(args []string) int {
 		vidx  []int // index into owner's violations, or -1 for a sample model
 	}
 	groups := map[string]*group{}
-	gkey := func(o *Obligation) string {
-		sb, _ := json.Marshal(o.Seams)
-		return o.Pkg + "|" + strings.Join(o.Files, ",") + "|" + string(sb)
-	}
 	for _, r := range runs {
 		if r.res == nil || r.wit {
 			continue
